@@ -18,7 +18,7 @@ from vlib.core import Stage, fail
 ID = "C07"
 MANIFEST = {
     "category": "exploration",
-    "text": "Generated-input search: valid, format-constraint-dense expressions (juxtapositions on either side of atoms and of bracketed compositions, >= 3 fc keys under different operators) x rc assignments (all 3^k for k<=3, else 10 sampled) x all 2^n truth assignments of the fc keys (n<=5). The collected expression must be None or be accepted by the reference recogniser, contain only U/O/X compositions over fc keys of the source, and - evaluated by the real format_constraint_evaluation - equal the direct reading computed on the generating AST (attached constraint binding iff its operand is FULFILLED or a hint; operands contributing nothing are omitted; nothing counts as fulfilled).",
+    "text": "Generated-input search: valid, format-constraint-dense expressions (juxtapositions on either side of atoms and of bracketed compositions, >= 3 fc keys under different operators) x rc assignments (all 3^k for k<=3, else 10 sampled) x all 2^n truth assignments of the fc keys (n<=5). The collected expression must be None or be accepted by the reference recogniser, contain only U/O/X compositions over fc keys of the source, and - evaluated by the real format_constraint_evaluation - equal the direct reading computed on the generating AST (attached constraint binding iff its operand is FULFILLED or a hint; operands contributing nothing are omitted; nothing counts as fulfilled). One slice is enumerated completely: every valid expression with at least one format constraint and up to 3 (thorough: 4) atoms over the keys [1], [2], [501], [901], [902], under all rc and truth assignments.",
     "note": "Trusted: ref.fc_direct / ref.state (reference reading), ref.accepts_condition, the generator. The string round trip through the real parser and FormatConstraintTransformer is part of what is tested (C08 checks that evaluator separately). Bounded: <= 12/24 atoms, <= 5 fc keys.",
     "technique": "property-based testing against a reference interpretation, exhaustive over truth assignments per expression",
 }
@@ -128,9 +128,25 @@ def strategy(tier):
     return build()
 
 
+SMALL = {"quick": 3, "thorough": 4}
+
+
+def enumerate_small(tier, shard, nshards, seed):  # pylint:disable=unused-argument
+    """every valid expression with a format constraint and up to 3 (thorough: 4) atoms over the five small keys"""
+    index = 0
+    for ast in ref.enumerate_small_dom(SMALL[tier]):
+        if ref.validity(ast) != "valid" or not ref.keys_of(ast, "fc"):
+            continue
+        if index % nshards == shard:
+            yield {"ast": ast, "s": ref.canonical(ast), "assignments": "all"}
+        index += 1
+
+
 STAGES = [
     Stage(name="collected", kind="hyp", check=check, classify=classify, strategy=strategy,
           budget={"quick": 150, "thorough": 2500},
           floors={"collected-two-operators": 0.15, "attached-to-composition": 0.3},
           sample=lambda c: {"s": c["s"], "assignments": c["assignments"] if c["assignments"] == "all" else c["assignments"][:2]}),
+    Stage(name="small-scope", kind="enum", check=check, classify=classify, enumerate=enumerate_small, exhaustive=True,
+          sample=lambda c: {"s": c["s"], "assignments": "all"}),
 ]  # fmt: skip
